@@ -742,7 +742,8 @@ func (m *metadataStoreIndex) postHandlerSentAliases() error {
 	for _, evt := range m.eventsContactAddAliasKey {
 		memberPublicKey, err := m.unsafeGetMemberByDevice(evt.DevicePk)
 		if err != nil {
-			return fmt.Errorf("couldn't get member for device")
+			// device not announced (yet): the next update scans the whole log again
+			continue
 		}
 
 		if memberPublicKey.Equals(m.ownMemberDevice.Member()) {
@@ -751,7 +752,8 @@ func (m *metadataStoreIndex) postHandlerSentAliases() error {
 		}
 
 		if l := len(evt.AliasPk); l != cryptoutil.KeySize {
-			return errcode.ErrCode_ErrInvalidInput.Wrap(fmt.Errorf("invalid alias key size, expected %d, got %d", cryptoutil.KeySize, l))
+			m.logger.Error("invalid alias key size", zap.Int("expected", cryptoutil.KeySize), zap.Int("got", l))
+			continue
 		}
 
 		m.otherAliasKey = evt.AliasPk
